@@ -183,3 +183,48 @@ Example ex_shape_change_is_not_a_repeat :
   | Err => False
   end.
 Proof. vm_compute. repeat split. Qed.
+
+(* ---------- greedy membership of array-valued sensors (finding F27, repaired) ----------
+   sensor_to_categorical wraps the greedy values of a wrapped sensor (statement pinned by item_c10_s2c), so
+   `value in greedy_values` is decided by ComparableArrayWrapper.__eq__ with a wrapper on BOTH sides = caw_eq_src, i.e. on
+   the ids: a value of the sensor is greedy iff one of the greedy values has the same shape and the same elements. *)
+Lemma in_ids_from_elim eq u l : forall j z, In z (ids_from eq u j l) -> exists y k, In y l /\ z = id_in eq u k y.
+Proof.
+  induction l as [|w l IH]; intros j z H; simpl in H; [destruct H|]. destruct H as [H|H].
+  - exists w, j. split; [left; reflexivity|symmetry; exact H].
+  - destruct (IH _ _ H) as [y [k [H1 H2]]]. exists y, k. split; [right; exact H1|exact H2].
+Qed.
+Lemma in_ids_from_intro eq u l : forall j y, In y l -> exists k, In (id_in eq u k y) (ids_from eq u j l).
+Proof.
+  induction l as [|w l IH]; intros j y H; [destruct H|]. destruct H as [->|H].
+  - exists j. left. reflexivity.
+  - destruct (IH (j + 1) y H) as [k Hk]. exists k. right. exact Hk.
+Qed.
+
+Lemma greedy_by_value (u g : list wv) :
+  (forall x, In x u -> nan_free x = true) -> (forall x y, In x u -> In y u -> compatible x y = true) ->
+  incl g u -> forall x i j, In x u ->
+  (In (id_in caw_eq_src u i x) (ids_from caw_eq_src u j g) <->
+   exists y, In y g /\ arr_shape y = arr_shape x /\ wdata y = wdata x).
+Proof.
+  intros Hn Hc Hg x i j Hx. split.
+  - intro H. destruct (in_ids_from_elim _ _ _ _ _ H) as [y [k [Hy E]]]. exists y. split; [exact Hy|].
+    apply (value_ids_faithful u Hn Hc x y i k Hx (Hg y Hy)) in E. destruct E as [E1 E2]. split; congruence.
+  - intros [y [Hy [E1 E2]]]. destruct (in_ids_from_intro caw_eq_src u g j y Hy) as [k Hk].
+    assert (E : id_in caw_eq_src u i x = id_in caw_eq_src u k y).
+    { apply (value_ids_faithful u Hn Hc x y i k Hx (Hg y Hy)). split; congruence. }
+    rewrite E. exact Hk.
+Qed.
+
+(* the F27 witness on structured values: an ndarray greedy value [3, 30] inside dump 1 keeps the dump although a later
+   plain value arrives in the same dump (the later value is pushed to dump 2); a greedy value of ANOTHER shape does not *)
+Example ex_array_greedy :
+  match per_dump_sv [-1; 1; 2] [nd [2] [1; 10]; nd [2] [3; 30]; nd [2] [2; 20]] [-1; 1; 3] 2 None [nd [2] [3; 30]] None with
+  | Ok c => cevents c = [0; 1; 2; 3] /\ cat_all_src c = Ok [1; 2; 3]
+  | Err => False
+  end /\
+  match per_dump_sv [-1; 1; 2] [nd [2] [1; 10]; nd [2] [3; 30]; nd [2] [2; 20]] [-1; 1; 3] 2 None [nd [1] [3]] None with
+  | Ok c => cevents c = [0; 1; 3] /\ cat_all_src c = Ok [1; 3; 3]
+  | Err => False
+  end.
+Proof. vm_compute. repeat split. Qed.
